@@ -290,10 +290,26 @@ def run_and_validate(chk, behaviours, label):
         flat += lines
     with open(script, "w") as f:
         f.write("\n".join(flat) + "\n")
-    vlib.sh([b, script, trace, os.path.join(wd, "d")], timeout=1200)
-    events = vlib.read_ndjson(trace)
-    emitting = [ln for ln in flat if ln.split()[0] != "cfg"]
-    if len(events) != len(emitting):
+    rc, out = vlib.sh([b, script, trace, os.path.join(wd, "d")], timeout=1200, check=False)
+    events = vlib.read_ndjson(trace) if os.path.exists(trace) else []
+    emitting = [i for i, ln in enumerate(flat) if ln.split()[0] != "cfg"]
+    if rc != 0:
+        # the process (daemon included) died.  If it died while handling a STORE whose declared length is over
+        # the cap, the daemon did not refuse it before going for the body: that is C28's business; anything
+        # else is not decided here (crash-freedom is C35) and stops the check as a machinery error.
+        li = emitting[len(events)] if len(events) < len(emitting) else len(flat) - 1
+        st = max(i for i, ln in enumerate(flat[:li + 1]) if ln.startswith("reset"))
+        cur = dict(kv.split("=", 1) for kv in flat[li].split()[1:] if "=" in kv)
+        cap = int(dict(kv.split("=", 1) for kv in flat[st].split()[1:] if "=" in kv).get("cap", 64))
+        over = flat[li].startswith("req") and cur.get("cmd") == "STORE" and ("len" in cur and cur["len"] != "actual" or int(cur.get("sz", 0)) > cap)
+        if not over:
+            raise vlib.MachineryError("driver failed rc=%d at script line %r (%s):\n%s" % (rc, flat[li], label, out[-3000:]))
+        chk.report("C28.body-read-before-refusal", "the daemon process aborted (rc=%d: %s) instead of refusing an over-cap STORE before its body (%s)" % (
+            rc, out.strip().splitlines()[-1][:200] if out.strip() else "", label), flat[st:li + 1], replay_name="C28.body-read-before-refusal")
+        log("[trace] %s: daemon aborted at %r after %d events; validating what was recorded" % (label, flat[li], len(events)))
+        if not events:
+            return None
+    elif len(events) != len(emitting):
         raise vlib.MachineryError("driver wrote %d events for %d commands (%s)" % (len(events), len(emitting), label))
     silent = [e for e in events if e["op"] == "req" and e.get("status") == "NONE"]
     if silent:
